@@ -248,7 +248,8 @@ pub fn run(toks: Vec<Tok>) -> Vec<Tok> {
 /// UDP through the SOCKS5 forwarder end to end: `CONNECT _udp2` over HTTP/1.1-TLS to the real endpoint, which associates with a
 /// scripted SOCKS5 server (control connection + relay socket on loopback).
 /// in : [extended_auth (0|1), datagrams, payload length, reply code of the server to UDP ASSOCIATE, scenario (absent or 0: this one |
-///       1: one source, two destinations, the first expires | 2, 3, 4: a fault confined to one association, see below)]
+///       1: one source, two destinations, the first expires | 2, 3, 4, 5: a fault confined to one association, see below |
+///       7: two associations fall idle; are their descriptors released)]
 /// out: [996] | [status, replies with the right payload, replies labelled source = the destination and destination = the client's source,
 ///       control connections the server saw, datagrams the relay received, their headers are all RSV RSV FRAG ATYP DST.ADDR DST.PORT (0|1),
 ///       their payloads intact] then the bytes of the first control connection
@@ -265,9 +266,27 @@ pub fn udp(toks: Vec<Tok>) -> Vec<Tok> {
         //   3: the relay port the server names for the association of source 4000 is closed (sends fail with ECONNREFUSED);
         //   4: the server takes 150 ms to answer UDP ASSOCIATE and the UDP timeout is 400 ms (the expiry timer runs every 100 ms,
         //      i.e. while the association of a new flow is being set up);
+        //   5: the server answers the UDP ASSOCIATE of source 4000 and never that of source 4001 (it keeps the control connection open and
+        //      says nothing); establishment timeout 700 ms, UDP timeout 2000 ms; source 4000 goes on sending;
         // out: [status, client connection closed by the endpoint (0|1)] then per datagram sent [source port, tag, its reply came back labelled for its flow (0|1)]
+        //      under 5 the first token goes on with [.., the endpoint gave the unanswered association up (closed its control connection) (0|1),
+        //      ms after the server had read the request, ms the harness waited for that at most]
+        //   7: no fault: two client sources exchange one datagram each (UDP timeout 400 ms) and fall silent; a second token is inserted:
+        //      [socket descriptors of this process before the flows, after their replies, after 1600 ms of silence,
+        //       association control connections open at the server after the replies, after the silence]
         let fault = f.get(4).copied().unwrap_or(0);
         let (dead_first, slow_assoc) = (fault == 3, fault == 4);
+        let (silent_second, fd_probe) = (fault == 5, fault == 7);
+        const EST_MS: u64 = 700;
+        let abandoned: Arc<Mutex<Option<u128>>> = Arc::new(Mutex::new(None));
+        // control connections the server holds open at the moment (the authentication probe of the CONNECT included while it lasts)
+        let open_controls = Arc::new(std::sync::atomic::AtomicUsize::new(0));
+        struct Held(Arc<std::sync::atomic::AtomicUsize>);
+        impl Drop for Held {
+            fn drop(&mut self) {
+                self.0.fetch_sub(1, std::sync::atomic::Ordering::SeqCst);
+            }
+        }
         let Ok(relay) = tokio::net::UdpSocket::bind("127.0.0.1:0").await else { return vec![vec![996]] };
         let relay_port = relay.local_addr().unwrap().port();
         // a loopback port nobody listens on: bind, note the port, close
@@ -309,11 +328,17 @@ pub fn udp(toks: Vec<Tok>) -> Vec<Tok> {
         let controls: Arc<Mutex<Vec<Vec<u8>>>> = Arc::new(Mutex::new(vec![]));
         {
             let controls = controls.clone();
+            let abandoned = abandoned.clone();
+            let open_controls = open_controls.clone();
             tokio::spawn(async move {
                 loop {
                     let Ok((mut s, _)) = l.accept().await else { return };
                     let controls = controls.clone();
+                    let abandoned = abandoned.clone();
+                    open_controls.fetch_add(1, std::sync::atomic::Ordering::SeqCst);
+                    let held = Held(open_controls.clone());
                     tokio::spawn(async move {
+                        let _held = held;
                         let idx = {
                             let mut c = controls.lock().unwrap();
                             c.push(vec![]);
@@ -371,6 +396,13 @@ pub fn udp(toks: Vec<Tok>) -> Vec<Tok> {
                                     if slow_assoc && idx >= 1 {
                                         tokio::time::sleep(Duration::from_millis(150)).await;
                                     }
+                                    if silent_second && idx == 2 {
+                                        // never answered; the server only notes when the endpoint closes the connection
+                                        let since = tokio::time::Instant::now();
+                                        while matches!(s.read(&mut buf).await, Ok(k) if k > 0) {}
+                                        *abandoned.lock().unwrap() = Some(since.elapsed().as_millis());
+                                        return;
+                                    }
                                     let rp = if dead_first && idx == 1 { dead_port } else { relay_port };
                                     let _ = s.write_all(&[5, code, 0, 1, 127, 0, 0, 1, (rp >> 8) as u8, rp as u8]).await;
                                     stage = 3;
@@ -391,7 +423,7 @@ pub fn udp(toks: Vec<Tok>) -> Vec<Tok> {
             });
         }
         let make = move |addr: std::net::SocketAddr| {
-            Settings::builder()
+            let b = Settings::builder()
                 .listen_address(addr)
                 .unwrap()
                 .listen_protocols(ListenProtocolSettings {
@@ -402,9 +434,17 @@ pub fn udp(toks: Vec<Tok>) -> Vec<Tok> {
                 .forwarder_settings(ForwardProtocolSettings::Socks5(
                     Socks5ForwarderSettings::builder().server_address(socks_addr).unwrap().extended_auth(ext).build().unwrap(),
                 ))
-                .udp_connections_timeout(Duration::from_millis(if shared_source { 300 } else if slow_assoc { 400 } else { 120_000 }))
-                .build()
-                .unwrap()
+                .udp_connections_timeout(Duration::from_millis(if shared_source {
+                    300
+                } else if slow_assoc || fd_probe {
+                    400
+                } else if silent_second {
+                    2000
+                } else {
+                    120_000
+                }));
+            let b = if silent_second { b.connection_establishment_timeout(Duration::from_millis(EST_MS)) } else { b };
+            b.build().unwrap()
         };
         let auth: Option<Arc<dyn Authenticator>> = Some(Arc::new(RegistryBasedAuthenticator::new(&crate::engines::c01::clients())));
         let Some(ep) = crate::front::start(make, crate::ctxutil::basic_hosts, auth).await else {
@@ -518,7 +558,12 @@ pub fn udp(toks: Vec<Tok>) -> Vec<Tok> {
                 v
             };
             // (source port, tag, how long to wait for this datagram's reply before going on, ms)
-            let script: Vec<(u16, u8, u64)> = if slow_assoc {
+            let script: Vec<(u16, u8, u64)> = if silent_second {
+                // 4001's association is never answered; 4000 sends 300 ms later (while that attempt is still pending) and twice more
+                vec![(4000, 1, 1500), (4001, 2, 300), (4000, 3, 1500), (4000, 4, 1500), (4000, 5, 1500)]
+            } else if fd_probe {
+                vec![(4000, 1, 1500), (4001, 2, 1500)]
+            } else if slow_assoc {
                 // the second datagram of a pair follows well within the UDP timeout of the first
                 vec![(4001, 1, 200), (4001, 2, 200), (4001, 3, 200), (4002, 4, 200), (4002, 5, 200)]
             } else if dead_first {
@@ -527,7 +572,21 @@ pub fn udp(toks: Vec<Tok>) -> Vec<Tok> {
                 vec![(4000, 1, 1500), (4001, 2, 1500), (4000, 0xEE, 300), (4001, 3, 1500), (4000, 4, 1500), (4001, 5, 1500), (4001, 6, 1500)]
             };
             let mut closed = 0u128;
+            let fd_before = if fd_probe {
+                // the authentication probe of the CONNECT and the harness's own probes are gone by now
+                tokio::time::sleep(Duration::from_millis(300)).await;
+                match open_socket_fds() {
+                    Some(x) if open_controls.load(std::sync::atomic::Ordering::SeqCst) == 0 => x,
+                    _ => return vec![vec![996]],
+                }
+            } else {
+                0
+            };
+            let mut silent_sent_at = None;
             for (sport, tag, wait) in script.iter().copied() {
+                if silent_second && sport == 4001 {
+                    silent_sent_at = Some(tokio::time::Instant::now());
+                }
                 if closed == 1 || s.write_all(&mk(sport, tag)).await.is_err() {
                     closed = 1;
                     break;
@@ -546,7 +605,7 @@ pub fn udp(toks: Vec<Tok>) -> Vec<Tok> {
             }
             // stragglers (a reply that took longer than its datagram's wait)
             let deadline = tokio::time::Instant::now() + Duration::from_millis(2000);
-            while closed == 0 && !script.iter().all(|(p, t, _)| (dead_first && *p == 4000) || *t == 0xEE || replies(&inbox).contains(&(*p, *t))) {
+            while closed == 0 && !script.iter().all(|(p, t, _)| (dead_first && *p == 4000) || (silent_second && *p == 4001) || *t == 0xEE || replies(&inbox).contains(&(*p, *t))) {
                 match tokio::time::timeout_at(deadline, s.read(&mut buf)).await {
                     Ok(Ok(k)) if k > 0 => inbox.extend_from_slice(&buf[..k]),
                     Ok(_) => closed = 1,
@@ -555,6 +614,25 @@ pub fn udp(toks: Vec<Tok>) -> Vec<Tok> {
             }
             let got = replies(&inbox);
             let mut out = vec![vec![status, closed]];
+            if silent_second {
+                // how long the unanswered association attempt is given: three establishment timeouts and half a second
+                let limit = Duration::from_millis(3 * EST_MS + 500);
+                if let Some(t0) = silent_sent_at {
+                    while abandoned.lock().unwrap().is_none() && t0.elapsed() < limit {
+                        tokio::time::sleep(Duration::from_millis(20)).await;
+                    }
+                }
+                let a = *abandoned.lock().unwrap();
+                out[0].extend([a.is_some() as u128, a.unwrap_or(0), limit.as_millis()]);
+            }
+            if fd_probe {
+                let ctl = || open_controls.load(std::sync::atomic::Ordering::SeqCst) as u128;
+                let (Some(fd_live), ctl_live) = (open_socket_fds(), ctl()) else { return vec![vec![996]] };
+                // four UDP timeouts of silence (the client's connection stays open)
+                tokio::time::sleep(Duration::from_millis(1600)).await;
+                let (Some(fd_idle), ctl_idle) = (open_socket_fds(), ctl()) else { return vec![vec![996]] };
+                out.push(vec![fd_before, fd_live, fd_idle, ctl_live, ctl_idle]);
+            }
             for (sport, tag, _) in script {
                 out.push(vec![sport as u128, tag as u128, got.contains(&(sport, tag)) as u128]);
             }
